@@ -154,7 +154,8 @@ func conv(d drive.TypeDesc, v model.Value) verdict {
 		if v.Kind == model.Symbol {
 			return must(model.SymV(v.Sym))
 		}
-	case "iface":
+	case "iface", "ifacenil":
+		// ifacenil: an interface{} holding a typed nil pointer is like an empty one
 		return must(ifaceNorm(v))
 	case "stringer":
 		return errOnly
@@ -379,8 +380,29 @@ func runC17(c C17Case) string {
 		if c.T.K == "ifaceptr" {
 			target.Elem().Set(reflect.New(drive.GoType(*c.T.Elem)))
 		}
+		if c.T.K == "ifacenil" {
+			target.Elem().Set(reflect.Zero(reflect.PtrTo(drive.GoType(*c.T.Elem))))
+		}
 		if c.Preload > 0 && typ.Kind() == reflect.Slice {
 			target.Elem().Set(reflect.MakeSlice(typ, c.Preload, c.Preload))
+		}
+		if c.Preload > 0 && typ.Kind() == reflect.Array {
+			// an array target that is not all zero to begin with
+			for i := 0; i < typ.Len(); i++ {
+				e := target.Elem().Index(i)
+				switch e.Kind() {
+				case reflect.Int, reflect.Int8, reflect.Int16, reflect.Int32, reflect.Int64:
+					e.SetInt(int64(7 + i))
+				case reflect.Uint, reflect.Uint8, reflect.Uint16, reflect.Uint32, reflect.Uint64, reflect.Uintptr:
+					e.SetUint(uint64(200 + i))
+				case reflect.Float32, reflect.Float64:
+					e.SetFloat(2.5)
+				case reflect.String:
+					e.SetString("stale")
+				case reflect.Bool:
+					e.SetBool(true)
+				}
+			}
 		}
 		var err error
 		switch c.Via {
@@ -548,6 +570,9 @@ func c17Targets() []drive.TypeDesc {
 		{K: "struct", Fields: []drive.FieldDesc{{Name: "F", T: td("int32")}, {Name: "G", Tag: "g", T: td("string")}}}} {
 		out = append(out, wrap("ifaceptr", e, 0))
 	}
+	// interface{} targets that hold a typed nil pointer
+	out = append(out, wrap("ifacenil", td("int"), 0), wrap("ifacenil", drive.TypeDesc{K: "struct", Fields: []drive.FieldDesc{{Name: "F", T: td("int32")}}}, 0),
+		drive.TypeDesc{K: "struct", Fields: []drive.FieldDesc{{Name: "X", T: wrap("ifacenil", td("string"), 0)}, {Name: "Y", T: td("int")}}})
 	three := drive.TypeDesc{K: "struct", Fields: []drive.FieldDesc{{Name: "X", T: td("int")}, {Name: "Y", T: td("int")}, ann}}
 	out = append(out, wrap("slice", three, 0))
 	out = append(out, wrap("slice", wrap("slice", td("int"), 0), 0), wrap("map", wrap("slice", td("int"), 0), 0),
@@ -574,7 +599,7 @@ func genC17(t *rapid.T) C17Case {
 	if isWrapper(c.T) && gen.Chance(t, 70) && !c.Val.IsNull {
 		c.Val.Ann = []model.Sym{model.S(gen.Pick(t, []string{"a", "b", "x y"}))}
 	}
-	if (c.T.K == "slice" || c.T.K == "bytes") && gen.Chance(t, 30) {
+	if (c.T.K == "slice" || c.T.K == "bytes" || c.T.K == "array") && gen.Chance(t, 30) {
 		c.Preload = gen.Range(t, 1, 4)
 	}
 	if c.Binary && (c.Via == 1 || c.Via == 6) {
@@ -729,6 +754,9 @@ func TestC17(t *testing.T) {
 				}
 				for _, vv := range vals {
 					cells := []C17Case{{T: tg, Val: vv, Binary: false, Via: 1}, {T: tg, Val: vv, Binary: true, Via: 0}, {T: tg, Val: vv, Binary: true, Via: 2}}
+					if tg.K == "array" {
+						cells = append(cells, C17Case{T: tg, Val: vv, Binary: false, Via: 1, Preload: 1}, C17Case{T: tg, Val: vv, Binary: true, Via: 2, Preload: 1})
+					}
 					if tg.K == "slice" || tg.K == "bytes" {
 						for n := 1; n <= 3; n++ {
 							cells = append(cells, C17Case{T: tg, Val: vv, Binary: n%2 == 0, Via: n % 2, Preload: n})
